@@ -22,8 +22,6 @@ use std::time::{Duration, Instant};
 
 /// the extreme-value alphabet, as formula text
 pub const E: [&str; 17] = [
-    "1E308",
-    "-1E308",
     "1E-320",
     "0",
     "-0",
@@ -31,7 +29,6 @@ pub const E: [&str; 17] = [
     "-1",
     "0.5",
     "170",
-    "1E15",
     "TRUE",
     "\"\"",
     "\"a\"",
@@ -39,7 +36,12 @@ pub const E: [&str; 17] = [
     "Sheet2!C9",
     "Sheet2!A1:A3",
     "{1E308,1}",
+    "1E15",
+    "1E308",
+    "-1E308",
 ];
+/// indices of the huge values (last in E): an argument position holding one of them may be "poisoned" for a block, see `sweep`
+const HUGE: [usize; 3] = [14, 15, 16];
 /// Sheet2!A1:A3, the "range of extremes"
 const DATA: [&str; 3] = ["1E308", "1E308", "-1E308"];
 
@@ -226,6 +228,11 @@ pub fn worker_main(args: &[String]) -> i32 {
     let lo: usize = args[3].parse().unwrap_or(0);
     let hi: usize = args[4].parse().unwrap_or(0);
     let resume: usize = args[5].parse().unwrap_or(0);
+    // (position, value index) pairs assumed to exhaust resources in the resume block (found by the parent)
+    let poison: Vec<(usize, usize)> = args
+        .get(6)
+        .map(|s| s.split(';').filter_map(|x| x.split_once(':').and_then(|(a, b)| Some((a.parse().ok()?, b.parse().ok()?)))).collect())
+        .unwrap_or_default();
     let limit: u64 = std::env::var("VERIF_C08_AS_MB").ok().and_then(|s| s.parse().ok()).unwrap_or(4096) << 20;
     unsafe {
         let rl = libc::rlimit { rlim_cur: limit, rlim_max: limit };
@@ -251,13 +258,22 @@ pub fn worker_main(args: &[String]) -> i32 {
             let mut first_panic: Option<(String, String)> = None;
             let mut nonfinite = 0u64;
             let start = if b == lo { resume } else { 0 };
+            let mut skipped = 0u64;
             for t in start..n {
-                let mut buf = [0u8; 16];
+                if b == lo && !poison.is_empty() {
+                    let a = p.args_of(t);
+                    if a.iter().enumerate().any(|(i, v)| poison.contains(&(i, *v))) {
+                        skipped += 1;
+                        continue;
+                    }
+                }
+                let mut buf = [0u8; 24];
                 buf[..8].copy_from_slice(&(b as u64).to_le_bytes());
-                buf[8..].copy_from_slice(&(t as u64).to_le_bytes());
+                buf[8..16].copy_from_slice(&(t as u64).to_le_bytes());
+                buf[16..].copy_from_slice(&1u64.to_le_bytes());
                 let _ = prog.write_at(&buf, 0);
-                let args = p.args_of(t);
-                let formula = p.formula(&args);
+                let targs = p.args_of(t);
+                let formula = p.formula(&targs);
                 match run_formula(shape, &formula) {
                     Ok((bads, kind)) => {
                         *kinds.entry(kind).or_default() += 1;
@@ -281,12 +297,13 @@ pub fn worker_main(args: &[String]) -> i32 {
                 out,
                 "{}",
                 json!({"k": "block", "b": b, "name": name, "shape": SHAPES[shape], "from": start, "cases": n - start.min(n), "kinds": kinds,
-                       "panics": panics, "first_panic": first_panic, "nonfinite": nonfinite})
+                       "panics": panics, "first_panic": first_panic, "nonfinite": nonfinite, "skipped": skipped})
             );
         }
     });
-    let mut buf = [0u8; 16];
+    let mut buf = [0u8; 24];
     buf[..8].copy_from_slice(&u64::MAX.to_le_bytes());
+    buf[16..].copy_from_slice(&1u64.to_le_bytes());
     let _ = prog.write_at(&buf, 0);
     match r {
         Ok(()) => 0,
@@ -300,14 +317,25 @@ struct Slot {
     hi: usize,
     out: String,
     prog: String,
-    last: (u64, u64),
+    last: Option<(u64, u64)>,
     since: Instant,
+    cpu_at: u64,
+}
+
+/// CPU time (user + system) consumed so far by process `pid`, in milliseconds (Linux /proc; clock tick 100 Hz)
+fn cpu_ms(pid: u32) -> Option<u64> {
+    let t = std::fs::read_to_string(format!("/proc/{}/stat", pid)).ok()?;
+    let rest = &t[t.rfind(')')? + 2..];
+    let f: Vec<&str> = rest.split(' ').collect();
+    let ut: u64 = f.get(11)?.parse().ok()?;
+    let st: u64 = f.get(12)?.parse().ok()?;
+    Some((ut + st) * 10)
 }
 
 fn read_prog(path: &str) -> Option<(u64, u64)> {
     let b = std::fs::read(path).ok()?;
-    if b.len() < 16 {
-        return None;
+    if b.len() < 24 || b[16] == 0 {
+        return None; // the worker has not started its first case yet
     }
     Some((u64::from_le_bytes(b[..8].try_into().ok()?), u64::from_le_bytes(b[8..16].try_into().ok()?)))
 }
@@ -318,6 +346,7 @@ struct SweepOut {
     kinds: BTreeMap<String, u64>,
     outcome_pairs: BTreeSet<String>,
     panics: u64,
+    skipped: u64,
     panic_examples: Vec<Value>,
     exhausted: Vec<Value>,
     errors: Vec<String>,
@@ -330,15 +359,15 @@ fn sweep(max_arity: usize) -> SweepOut {
     let _ = std::fs::remove_dir_all(&dir);
     let _ = std::fs::create_dir_all(&dir);
     let exe = std::env::current_exe().expect("current_exe");
-    let watchdog = Duration::from_millis(std::env::var("VERIF_C08_WATCHDOG_MS").ok().and_then(|s| s.parse().ok()).unwrap_or(4000));
+    let watchdog = Duration::from_millis(std::env::var("VERIF_C08_WATCHDOG_MS").ok().and_then(|s| s.parse().ok()).unwrap_or(if max_arity >= 3 { 1000 } else { 500 }));
     let per_chunk = if max_arity >= 3 { 3 } else { 12 };
     let mut next_block = 0usize;
     let mut chunk_id = 0usize;
     let mut slots: Vec<Option<Slot>> = (0..crate::env::workers()).map(|_| None).collect();
-    let mut res = SweepOut { ds: vec![], cases: 0, kinds: BTreeMap::new(), outcome_pairs: BTreeSet::new(), panics: 0, panic_examples: vec![], exhausted: vec![], errors: vec![] };
+    let mut res = SweepOut { ds: vec![], cases: 0, kinds: BTreeMap::new(), outcome_pairs: BTreeSet::new(), panics: 0, skipped: 0, panic_examples: vec![], exhausted: vec![], errors: vec![] };
     let mut out_files: Vec<String> = vec![];
-    let spawn = |lo: usize, hi: usize, resume: usize, out: &str, prog: &str| -> std::io::Result<std::process::Child> {
-        let _ = std::fs::write(prog, [0u8; 16]);
+    let spawn = |lo: usize, hi: usize, resume: usize, out: &str, prog: &str, poison: &str| -> std::io::Result<std::process::Child> {
+        let _ = std::fs::write(prog, [0u8; 24]);
         std::process::Command::new(&exe)
             .arg("c08-worker")
             .arg(max_arity.to_string())
@@ -347,12 +376,14 @@ fn sweep(max_arity: usize) -> SweepOut {
             .arg(lo.to_string())
             .arg(hi.to_string())
             .arg(resume.to_string())
+            .arg(poison)
             .stdin(std::process::Stdio::null())
             .stdout(std::process::Stdio::null())
             .stderr(std::process::Stdio::null())
             .spawn()
     };
     let mut respawns = 0usize;
+    let mut poisoned: BTreeMap<usize, Vec<(usize, usize)>> = BTreeMap::new();
     loop {
         let mut busy = false;
         for slot in slots.iter_mut() {
@@ -376,17 +407,30 @@ fn sweep(max_arity: usize) -> SweepOut {
                             }
                         }
                     }
-                    Ok(None) => {
-                        let cur = read_prog(&sl.prog).unwrap_or((0, 0));
-                        if cur != sl.last {
-                            sl.last = cur;
-                            sl.since = Instant::now();
-                        } else if sl.since.elapsed() > watchdog && cur.0 != u64::MAX {
-                            let _ = sl.child.kill();
-                            let _ = sl.child.wait();
-                            restart = Some((cur.0 as usize, cur.1 as usize, sl.hi, sl.out.clone(), sl.prog.clone(), format!("watchdog: no progress for {} ms", watchdog.as_millis())));
+                    Ok(None) => match read_prog(&sl.prog) {
+                        None => {
+                            if sl.since.elapsed() > Duration::from_secs(120) {
+                                let _ = sl.child.kill();
+                                let _ = sl.child.wait();
+                                res.errors.push(format!("worker for blocks {}..{} did not start within 120 s", sl.lo, sl.hi));
+                                clear = true;
+                            }
                         }
-                    }
+                        Some(cur) => {
+                            let cpu = cpu_ms(sl.child.id()).unwrap_or(0);
+                            if Some(cur) != sl.last {
+                                sl.last = Some(cur);
+                                sl.since = Instant::now();
+                                sl.cpu_at = cpu;
+                            } else if cur.0 != u64::MAX
+                                && (cpu.saturating_sub(sl.cpu_at) > watchdog.as_millis() as u64 || sl.since.elapsed() > watchdog * 20)
+                            {
+                                let _ = sl.child.kill();
+                                let _ = sl.child.wait();
+                                restart = Some((cur.0 as usize, cur.1 as usize, sl.hi, sl.out.clone(), sl.prog.clone(), format!("watchdog: one case used more than {} ms of CPU", watchdog.as_millis())));
+                            }
+                        }
+                    },
                     Err(e) => {
                         res.errors.push(format!("try_wait: {}", e));
                         clear = true;
@@ -397,13 +441,22 @@ fn sweep(max_arity: usize) -> SweepOut {
                 let p = &prods[(b / SHAPES.len()).min(prods.len() - 1)];
                 let formula = if t < p.tuples(max_arity) { p.formula(&p.args_of(t)) } else { String::new() };
                 res.exhausted.push(json!({"producer": p.name(), "shape": SHAPES[b % SHAPES.len()], "formula": formula, "how": how}));
+                if t < p.tuples(max_arity) {
+                    let targs = p.args_of(t);
+                    let pz = poisoned.entry(b).or_default();
+                    let cand: Vec<(usize, usize)> = targs.iter().enumerate().filter(|(i, v)| HUGE.contains(v) && !pz.contains(&(*i, **v))).map(|(i, v)| (i, *v)).collect();
+                    if cand.len() == 1 {
+                        pz.push(cand[0]);
+                    }
+                }
+                let ptxt = poisoned.get(&b).map(|v| v.iter().map(|(i, v)| format!("{}:{}", i, v)).collect::<Vec<_>>().join(";")).unwrap_or_default();
                 respawns += 1;
                 if respawns > 20000 {
                     res.errors.push("too many worker respawns".into());
                     *slot = None;
                 } else {
-                    match spawn(b, hi, t + 1, &out, &prog) {
-                        Ok(child) => *slot = Some(Slot { child, lo: b, hi, out, prog, last: (0, 0), since: Instant::now() }),
+                    match spawn(b, hi, t + 1, &out, &prog, &ptxt) {
+                        Ok(child) => *slot = Some(Slot { child, lo: b, hi, out, prog, last: None, since: Instant::now(), cpu_at: 0 }),
                         Err(e) => {
                             res.errors.push(format!("respawn failed: {}", e));
                             *slot = None;
@@ -421,9 +474,9 @@ fn sweep(max_arity: usize) -> SweepOut {
                 let prog = format!("{}/c{}.prog", dir, chunk_id);
                 chunk_id += 1;
                 out_files.push(out.clone());
-                match spawn(lo, hi, 0, &out, &prog) {
+                match spawn(lo, hi, 0, &out, &prog, "") {
                     Ok(child) => {
-                        *slot = Some(Slot { child, lo, hi, out, prog, last: (0, 0), since: Instant::now() });
+                        *slot = Some(Slot { child, lo, hi, out, prog, last: None, since: Instant::now(), cpu_at: 0 });
                         busy = true;
                     }
                     Err(e) => res.errors.push(format!("spawn failed: {}", e)),
@@ -454,6 +507,7 @@ fn sweep(max_arity: usize) -> SweepOut {
                     res.cases += v["cases"].as_u64().unwrap_or(0);
                     *blocks_seen.entry(v["b"].as_u64().unwrap_or(0)).or_default() += 1;
                     res.panics += v["panics"].as_u64().unwrap_or(0);
+                    res.skipped += v["skipped"].as_u64().unwrap_or(0);
                     if !v["first_panic"].is_null() && res.panic_examples.len() < 40 {
                         res.panic_examples.push(json!({"producer": v["name"], "shape": v["shape"], "formula": v["first_panic"][0], "panic": v["first_panic"][1]}));
                     }
@@ -565,12 +619,23 @@ fn check_import(target: usize, spelling: &str, members: &[(String, Vec<u8>)]) ->
             Err(_) => return Ok(ds), // a rejected file stores nothing
         };
         let bads = scan(&m);
-        ds.extend(disagreement(&format!("import <v> of {}", tname), case.clone(), &format!("<v>{}</v>", spelling), &bads));
-        if ds.is_empty() {
+        if let Some(b) = bads.first() {
+            ds.push(Disagreement {
+                sig: format!("non-finite number stored by import: <v> of {}", tname),
+                case: case.clone(),
+                detail: format!("a package whose {} is <v>{}</v> imports with {} ({}) {}", tname, spelling, b.at, b.role, b.what),
+            });
+        } else {
             let mut m = m;
             m.evaluate();
             let bads = scan(&m);
-            ds.extend(disagreement(&format!("import <v> of {} then evaluate", tname), case.clone(), &format!("<v>{}</v>", spelling), &bads));
+            if let Some(b) = bads.first() {
+                ds.push(Disagreement {
+                    sig: format!("non-finite number stored after import and evaluate: <v> of {}", tname),
+                    case: case.clone(),
+                    detail: format!("a package whose {} is <v>{}</v>, imported and evaluated: {} ({}) {}", tname, spelling, b.at, b.role, b.what),
+                });
+            }
         }
         Ok(ds)
     });
@@ -682,15 +747,23 @@ pub fn run(run: &mut Run) {
     run.extra.insert("typed_stored_as_number".into(), json!(typed_numbers));
     run.extra.insert("import_cases".into(), json!(import_cases));
     run.extra.insert("resource_exhausted_count".into(), json!(sw.exhausted.len()));
+    run.extra.insert("skipped_assumed_exhausting".into(), json!(sw.skipped));
     run.extra.insert("resource_exhausted".into(), json!(sw.exhausted.iter().take(60).collect::<Vec<_>>()));
+    let mut by: BTreeMap<String, u64> = BTreeMap::new();
+    for x in &sw.exhausted {
+        let how = if x["how"].as_str().unwrap_or("").starts_with("watchdog") { "watchdog" } else { "died" };
+        *by.entry(format!("{} {}", x["producer"].as_str().unwrap_or(""), how)).or_default() += 1;
+    }
+    run.extra.insert("resource_exhausted_by_producer".into(), json!(by));
     run.extra.insert("panics_not_judged_here_count".into(), json!(sw.panics));
     run.extra.insert("panics_not_judged_here_examples".into(), json!(sw.panic_examples));
     run.sample(json!({"kind": "formula", "formula": "SUM(1E308,Sheet2!A1:A3)", "shape": "scalar"}));
-    run.sample(json!({"kind": "formula", "formula": "{1E308,1}*170", "shape": "dyn"}));
+    run.sample(json!({"kind": "formula", "formula": "{1E308,1}*170", "shape": "dyn", "via": "operator *"}));
     run.sample(json!({"kind": "typed", "text": "-1e999%"}));
     run.sample(json!({"kind": "import", "target": 1, "spelling": "NaN"}));
     run.exhaustive = true;
     run.assume("a case that exhausts memory (RLIMIT_AS 4 GiB), overflows the stack or runs longer than the watchdog is recorded as resource_exhausted and not judged here (C11 judges crashes)");
+    run.assume("after a tuple with exactly one not-yet-poisoned huge argument (1E15, 1E308, -1E308) exhausts resources, later tuples of the same function and shape with that value at that position are assumed to exhaust them too and are skipped (skipped_assumed_exhausting); all other tuples run");
     run.assume("a panic inside evaluation is counted (panics_not_judged_here) but not judged by this property");
     run.assume("each case runs in a fresh two-sheet model; the formula is entered in Sheet1!A1 (CSE: A1:B2; dynamic: `(f)+{0,0}`)");
     run.assume("formatted text is checked for the first 64 numeric cells of a workbook; stored values for all cells");
